@@ -170,6 +170,44 @@ func RunStream(c *Ctx, cfg StreamCfg, handle func(w *Worker, sc StrCase, res *[s
 			})
 		}
 	}
+	// (a3) COMPLETE: every prefix of the base group (0..all base metrics) followed by ONE optional
+	// metric with each of its values; and followed by every ordered pair of optional metrics (first values):
+	// the shapes where a parser's "skip ahead in the order table" logic can jump over the mandatory check
+	if cfg.Cover {
+		for vi, v := range spec.Versions {
+			vi, v := vi, v
+			var base, opt []int
+			for m, me := range v.Metrics {
+				if me.Mandatory {
+					base = append(base, m)
+				} else {
+					opt = append(opt, m)
+				}
+			}
+			c.Parallel("prefix-plus-optional-"+v.Name, (len(base)+1)*len(opt), 4, func(w *Worker, i int) {
+				k := i / len(opt)
+				m := opt[i%len(opt)]
+				a := gen.RandomAssign(w.R, v)
+				var el []string
+				for _, b := range base[:k] {
+					el = append(el, v.Metrics[b].Abv+":"+v.Metrics[b].Values[a[b]])
+				}
+				h := v.Header
+				if v.ID == spec.V40 {
+					h += "/"
+				}
+				for _, val := range v.Metrics[m].Values {
+					do(w, StrCase{h + strings.Join(append(append([]string{}, el...), v.Metrics[m].Abv+":"+val), "/"), vi, "prefix-plus-optional"})
+				}
+				for _, m2 := range opt {
+					if m2 != m {
+						e2 := append(append([]string{}, el...), v.Metrics[m].Abv+":"+v.Metrics[m].Values[a[m]], v.Metrics[m2].Abv+":"+v.Metrics[m2].Values[a[m2]])
+						do(w, StrCase{h + strings.Join(e2, "/"), vi, "prefix-plus-two-optional"})
+					}
+				}
+			})
+		}
+	}
 	// (b) complete neighbourhoods of anchors
 	for vi, v := range spec.Versions {
 		anc := anchors(c.Rand("anchors", v.Name), v, cfg.Anchors)
